@@ -436,7 +436,7 @@ func (c *checkCtx) crossProcess(bt *batch) *xprocResult {
 }
 
 func (c *checkCtx) writeReplay(rp *report) string {
-	dir := filepath.Join(verifDir(), "replays")
+	dir := filepath.Join(outDir(), "replays")
 	os.MkdirAll(dir, 0o755)
 	cfg := rp.Run.Config
 	if rp.Min != nil {
